@@ -45,7 +45,7 @@ def profile(tier, rng):
                      self_join_p=0.15, pair_keys_p=0.25,
                      ops={"extend": 5, "wextend": 2, "owextend": 2, "project": 2, "select_rows": 3, "select_columns": 2,
                           "drop_columns": 2, "rename_columns": 2, "map_columns": 2, "order_rows": 2, "natural_join": 3,
-                          "concat_rows": 2})
+                          "concat_rows": 2, "convert_records": 1})
 
 
 _models = []
